@@ -1549,7 +1549,9 @@ def _encode_host(host: str, validate_host: bool) -> str:
                     f"Zone {zone!r} of host {raw_ip!r} cannot contain "
                     f"{invalid.group()!r} (at position {invalid.start()})"
                 )
-            if ip.version == 6:
+            if ip.version == 6 or ":" in zone:
+                # (a zone with a colon can only come from a bracketed literal,
+                # it needs the brackets to stay an unambiguous part of the netloc)
                 return f"[{host}%{zone}]" if sep else f"[{host}]"
             return f"{host}%{zone}" if sep else host
 
